@@ -89,9 +89,11 @@ ValidN(ev) ==
   /\ ev.nres = ev.n /\ ev.qok = 1
   /\ 0 <= ev.lo /\ ev.lo < ev.hi /\ ev.hi <= ev.n + 1
   /\ IF ev.c.c # "fin" \/ RLe(One, c) THEN ev.lo = 0 /\ ev.hi = ev.n + 1 /\ ev.conf = [s |-> 1, m |-> E18] /\ ev.amb = 0
-     ELSE IF ev.degenerate = 1 \/ c.n.s <= 0
-     THEN /\ RLe(RSub(c, [n |-> SNat(<<1>>), d |-> E12]), [n |-> P18(ev.conf), d |-> E18])   \* q = 0 or 1, or c <= 0 (no central band): range, and
-          /\ ev.conf.s >= 0 /\ Cmp(ev.conf.m, Add(E18, <<0, 100>>)) <= 0                   \* Confidence a probability >= c
+     ELSE IF ev.degenerate = 1 \/ c.n.s <= 0 \/ (ev.L >= ev.H /\ FloorMay(RSub(DyRat(ev.l1.d), Half), ev.L - 1) /\ CeilMay(RSub(DyRat(ev.r1.d), Half), ev.H - 1))
+     THEN \* q = 0 or 1, c <= 0, or a c so small that the band of content c rounds outward to no bucket at all (l1 = r1 on a
+          \* half-integer): there is no central band to reproduce; the range clause and "Confidence is a probability >= c" remain
+          /\ RLe(RSub(c, [n |-> SNat(<<1>>), d |-> E12]), [n |-> P18(ev.conf), d |-> E18])
+          /\ ev.conf.s >= 0 /\ Cmp(ev.conf.m, Add(E18, <<0, 100>>)) <= 0
      ELSE
        \* L = Floor(l1 - 1/2) + 1, H = Ceil(r1 - 1/2) + 1 are the harness's unclamped orders; TLC re-derives them from l1, r1
        /\ FloorMay(RSub(DyRat(ev.l1.d), Half), ev.L - 1)
